@@ -105,8 +105,27 @@ def main(argv=None):
     for (m2, gname, ids) in getattr(mod, "SHARED", []):
         jobs.append((m2, gname, tier, seed))
         shared_ids[(m2, gname)] = ids
+    xgroups = list(getattr(mod, "XCHECK", []))
+    xprocs = []
+    for g in xgroups:          # encoding cross-check of the NumPy model against real NumPy (DESIGN §1.6), in parallel
+        env = dict(os.environ)
+        env["PYTHONPATH"] = os.path.join(os.environ.get("VERIF_REPO", "/repo"), "src") + os.pathsep + ROOT
+        env["VERIF_SEED"] = str(seed)
+        xprocs.append((g, subprocess.Popen(["/venv/bin/python", os.path.join(ROOT, "replay", "xcheck.py"), g], stdout=subprocess.PIPE,
+                                           stderr=subprocess.PIPE, text=True, env=env, cwd="/tmp")))
     with mp.get_context("fork").Pool(min(a.jobs, max(1, len(jobs)))) as pool:
         results = pool.map(_run_group, jobs, chunksize=1)
+    xres = []
+    for g, pr in xprocs:
+        try:
+            so, se = pr.communicate(timeout=900)
+            lines = [l for l in so.strip().splitlines() if l.startswith("{")]
+            r = json.loads(lines[-1]) if lines else {"ok": False, "error": (se or so)[-800:]}
+        except Exception as e:
+            pr.kill()
+            r = {"ok": False, "error": "cross-check did not finish: %s" % e}
+        r["group"] = g
+        xres.append(r)
     clauses, controls, bounded = [], [], []
     stats = {}
     np_used = set()
@@ -187,6 +206,8 @@ def main(argv=None):
                          "cvc5_queries": stats.get("cvc5_calls", 0), "cvc5_seconds": round(stats.get("cvc5_s", 0.0), 3)},
             "bounded_checks": bounded,
             "known_findings": [{"finding": k["id"], "obligation": c["obligation"], "what": k["what"]} for k, c in kfound],
+            "encoding_crosscheck": [{"group": r["group"], "ok": r.get("ok"), "cases": r.get("cases"), "mismatches": r.get("mismatches", [])[:3],
+                                     "error": r.get("error")} for r in xres],
             "vacuity_controls": {"run": len(controls), "refuted_as_required": len(controls) - len(ctrl_bad),
                                  "samples": controls[:10]},
             "undecided": undecided, "errors": errors,
@@ -218,6 +239,12 @@ def main(argv=None):
     if errors:
         for c in errors:
             print("CHECKER-ERROR %s: %s" % (c["obligation"], c["detail"][-600:]))
+        return 3
+    xbad = [r for r in xres if not r.get("ok")]
+    if xbad and not violations:
+        for r in xbad:
+            print("CHECKER-ERROR encoding cross-check '%s': the NumPy model of the VC generator disagrees with real NumPy: %s" % (
+                r["group"], json.dumps(r.get("mismatches") or r.get("error"))[:600]))
         return 3
     if ctrl_bad:
         for c in ctrl_bad:
